@@ -1,5 +1,6 @@
 """C13 - Fermi-level scans have the documented sea and surface semantics."""
 import math
+import os
 import numpy as np
 from fractions import Fraction as Fr
 
@@ -94,6 +95,11 @@ def gen_grid(rng, E):
     """uniform dyadic Fermi grid; with good probability a bin edge coincides with a band energy"""
     n = rng.choice([1, 1, 2, 3, 4, 6])
     d = Fr(rng.choice([1, 1, 3]), rng.choice([2, 4, 8, 32]))
+    if n == 1:
+        # a single Fermi level uses the non-dyadic spacing 0.001: an exact tie E == Ef + j/1000 would be decided by the
+        # rounding of fl(E - fl(Ef - 0.001)) / 0.001 (outside the model: "float ceil at exact bin edges").  An odd
+        # multiple of 2^-12 can never tie with a mean of <= 6 energies that are multiples of 2^-7 (margin > 6e-7).
+        return [rng.choice(E) + Fr(2 * rng.randint(-40, 40) + 1, 4096)]
     if rng.random() < 0.6:
         ef0 = rng.choice(E) - d * rng.randint(0, n + 2)
     else:
@@ -363,7 +369,7 @@ def systems_oracle(ctx, scale):
     rng = ctx.rng
     rs = np.random.RandomState(rng.getrandbits(31))
     User = make_user_formula()
-    nsys = ctx.n(6, 40) * scale
+    nsys = ctx.n(5, 40) * scale
     for isys in range(nsys):
         nw = int(rs.randint(1, 5))
         doubled = rng.random() < 0.4
@@ -389,7 +395,7 @@ def systems_oracle(ctx, scale):
             ctx.fail("band energies of Data_K differ from the direct Fourier sum (k-point set of the FFT grid)", sysinfo)
             continue
         lo, hi = Eall.min(), Eall.max()
-        for rep in range(ctx.n(8, 20)):
+        for rep in range(ctx.n(6, 20)):
             Ef, dEF, mode = gen_fermi(rng, lo, hi)
             th = rng.choice([1e-8, 1e-4, 1e-4, 0.05, 0.3])
             kr = doubled and rng.random() < 0.3
@@ -503,7 +509,8 @@ def systems_oracle(ctx, scale):
                         "ahcx": st.AHC(Efermi=ext, degen_thresh=th),
                         "ahc1": StaticCalculator(Efermi=Ef, Formula=frml.Omega, fder=1, constant_factor=factors.factor_ahc,
                                                  degen_thresh=th)},
-                        parallel=False, use_irred_kpt=False, symmetrize=False, print_Kpoints=False, adpt_num_iter=0)
+                        parallel=False, use_irred_kpt=False, symmetrize=False, print_Kpoints=False, adpt_num_iter=0,
+                    fout_name=os.path.join(ctx.work, "result"))
                 kk = [np.array([i / NK[0], j / NK[1], l / NK[2]]) for i in range(NK[0]) for j in range(NK[1])
                       for l in range(NK[2])]
                 Eg = np.array([band_energies(s, k) for k in kk])
